@@ -95,30 +95,43 @@ def str_keys_read(fn, dname="D"):
                         if isinstance(e, ast.Constant):
                             self_guards.add(e.value)
 
-    def guard_key(test):
+    def guard_keys(test):
+        """Keys whose presence the test establishes: `"k" in D`, conjunctions of those, all(k in D for k in ["a", "b"])."""
         if isinstance(test, ast.Compare) and len(test.ops) == 1 and isinstance(test.ops[0], ast.In) \
                 and U(test.comparators[0]) == dname and isinstance(test.left, ast.Constant):
-            return test.left.value
-        return None
+            return frozenset([test.left.value])
+        if isinstance(test, ast.BoolOp) and isinstance(test.op, ast.And):
+            out = frozenset()
+            for v in test.values:
+                out |= guard_keys(v)
+            return out
+        if isinstance(test, ast.Call) and U(test.func) == "all" and len(test.args) == 1 \
+                and isinstance(test.args[0], (ast.GeneratorExp, ast.ListComp)) and len(test.args[0].generators) == 1:
+            g_ = test.args[0].generators[0]
+            e_ = test.args[0].elt
+            if isinstance(e_, ast.Compare) and len(e_.ops) == 1 and isinstance(e_.ops[0], ast.In) and U(e_.comparators[0]) == dname \
+                    and U(e_.left) == U(g_.target) and isinstance(g_.iter, (ast.List, ast.Tuple)):
+                return frozenset(x.value for x in g_.iter.elts if isinstance(x, ast.Constant))
+        return frozenset()
 
     def visit(node, g):
         if isinstance(node, ast.If):
-            k = guard_key(node.test)
+            k = guard_keys(node.test)
             for c in node.body:
-                visit(c, k or g)
+                visit(c, (g or frozenset()) | k if (k or g) else None)
             for c in node.orelse:
                 visit(c, g)
             return
         if isinstance(node, ast.IfExp):
-            k = guard_key(node.test)
-            visit(node.body, k or g)
+            k = guard_keys(node.test)
+            visit(node.body, (g or frozenset()) | k if (k or g) else None)
             visit(node.orelse, g)
             return
         if isinstance(node, ast.Subscript) and U(node.value) == dname and isinstance(node.slice, ast.Constant) \
                 and isinstance(node.slice.value, str):
             key = node.slice.value
-            if g is not None:
-                guarded.setdefault(key, g)
+            if g:
+                guarded.setdefault(key, key if key in g else sorted(g)[0])
             elif key in self_guards:
                 guarded.setdefault(key, key)
             else:
